@@ -100,6 +100,22 @@ func grouped(rep *report, n int, cfgOf func(int) drv.ScriptCfg, idOf func(int) s
 				for _, i := range j.list {
 					rng := rand.New(rand.NewSource(*fSeed*1000003 + int64(hash(idOf(i)))))
 					err := run(inst, i, tw, rng, local)
+					if !inst.P.Alive() {
+						// the gateway process died: a finding for the checks that look for it
+						// (their trace carries it), and the next script needs a fresh instance
+						mu.Lock()
+						rep.Faults = append(rep.Faults, inst.P.Faults()...)
+						rep.Faults = append(rep.Faults, "gateway process exited during "+idOf(i))
+						mu.Unlock()
+						inst.Stop()
+						if ni, e := r.NewInst(cfgOf(i)); e == nil {
+							inst = ni
+							local = map[string]interface{}{}
+						}
+						if err != nil && strings.Contains(err.Error(), "GATEWAY-DIED") {
+							err = nil
+						}
+					}
 					mu.Lock()
 					if err != nil {
 						tail := inst.P.Stderr()
